@@ -652,18 +652,24 @@ func (c *Conn) readRecordOrCCS(expectChangeCipherSpec bool) error {
 		c.in.seq[6] = hdr[9]
 		c.in.seq[7] = hdr[10]
 
+		// 旧 epoch 的记录（如对端重传的上一 flight）无法用当前密钥解密：
+		// 在解密之前静默丢弃，继续下一条记录
+		if epoch < c.readEpoch {
+			c.rawInputBuf = c.rawInputBuf[recordHeaderLen+n:]
+			continue
+		}
+
 		// 解密 + MAC 验证
 		record := c.rawInputBuf[:recordHeaderLen+n]
 		data, typ, err := c.in.decrypt(record)
 		if err != nil {
+			if handshakeComplete {
+				// RFC 6347 §4.1.2.7：握手完成后认证失败的记录静默丢弃，
+				// 伪造的数据报不得终止连接，也不得影响后续真实记录的接收
+				c.rawInputBuf = c.rawInputBuf[recordHeaderLen+n:]
+				continue
+			}
 			return c.in.setErrorLocked(c.sendAlert(err.(alert)))
-		}
-
-		// 重放检查（解密成功后执行，RFC 6347 §4.1.2.6）
-		if epoch < c.readEpoch {
-			// 旧 epoch：静默丢弃，继续下一条记录
-			c.rawInputBuf = c.rawInputBuf[recordHeaderLen+n:]
-			continue
 		}
 		if epoch > c.readEpoch {
 			c.readEpoch = epoch
